@@ -8,6 +8,7 @@ import lrcommon as lc
 LEVEL = "model_checking"
 TAGS = {"GENERIC": "parse tree: leaves are not the source tokens with their positions, or a node does not apply a documented production",
         "TYPED": "typed tree differs from the specification as written (declarations, operators, nesting, operand order)",
+        "TYPEDPOS": "the typed tree records a declaration or a handle of a directive at another place than its first token",
         "ROUNDTRIP": "printing the typed tree and parsing it again does not give an equal tree",
         "GRAMMAR": "the grammar read off the typed tree differs from the one emerge derives"}
 
